@@ -22,7 +22,7 @@ SCOPE = {
              "difference/transitive/subType with field and variable leaves, placed in a let, a requires, a reaches "
              "('->' and '+>') and as the middle one of three reaches targets; every step type x 0-2 tags x every CIA "
              "subset x ttc x reaches form; 10x10 multiplicity pairs in two spellings; 11 meta strings x 4 places; "
-             "abstract x extends; + 3000 seeded random specifications (<=3 categories, <=7 assets, expressions up to "
+             "abstract x extends; + 2500 seeded random specifications (<=3 categories, <=7 assets, expressions up to "
              "depth 4, TTC up to depth 3) each under 2 of 11 source layouts (1-4 files, sub-directories, repeated "
              "/ chained / diamond includes) and a random spelling style; + coreLang 1.0.0 (single file, two split "
              "layouts, and through LanguageGraph.from_mal_spec)",
@@ -151,7 +151,7 @@ def cases(tier, seed):
 
     # --- random specifications x layouts x styles ---------------------------------------------------
     kinds = [k for k in L.LAYOUT_KINDS if k != "single"]
-    n = 20000 if thorough else 3000
+    n = 20000 if thorough else 2500
     for i in range(n):
         s = rnd.randrange(1 << 30)
         spec = L.gen_spec(s, size=rnd.choice((1, 2, 2, 3)), depth=rnd.choice((2, 3, 4)))
@@ -219,6 +219,8 @@ def run_case(recipe):
     st1, out1 = L.compile_files(files1, via_language_graph=via_lg)
     fn_rt = "maltoolbox.language.languagegraph:LanguageGraph.from_mal_spec" if via_lg else FN_VISITOR
     clause_rt = {"corelang": "C04.corelang-equals-mar", "mini": "C04.from-mal-spec", "spec": "C04.roundtrip"}[recipe["kind"]]
+    if recipe["kind"] == "mini" and not via_lg:
+        clause_rt = "C04.roundtrip"
     if via_lg:
         clause_rt = "C04.from-mal-spec"
 
